@@ -135,6 +135,7 @@ type Options struct {
 	StmtDensity int  // percent of statement-level sites enabled as preemption points
 	TickWeight int   // percent chance (per decision with armed tickers) to fire a tick spontaneously
 	PoolDrop   int   // percent: Pool.Get ignores the cache
+	TraceSwitches bool  // record every context switch (replay rendering)
 	OnFinished func()   // called by Run when the episode is over, before parked tasks are released to die
 	Replay     []uint32 // if non-nil: choices are read from here
 	Strict     bool     // replay must match exactly
@@ -178,11 +179,23 @@ type Sim struct {
 	OnStep     func() // optional online invariant hook (norace!)
 	passive uint64
 	spinCap uint64
+	SwitchLog []SwitchEv
 	// crash (simulated process death) support
 	frozen []bool
 }
 
 var debugSteps = os.Getenv("SIMRT_DEBUG") != ""
+
+// SwitchEv is one context switch: at step Step task From (at site FromSite,
+// blocked on FromBlock or "" when merely preempted) handed over to task To,
+// which continues after site ToSite.
+type SwitchEv struct {
+	Step     uint64
+	From, To int
+	FromSite int32
+	ToSite   int32
+	FromBlock string
+}
 
 // S is the simulator of the running episode (nil: primitives pass through).
 var S *Sim
@@ -242,6 +255,7 @@ type Result struct {
 	Tape    []uint32
 	Tasks   []*Task
 	Now     time.Duration
+	Switches []SwitchEv
 }
 
 // Run executes root as task 0 and returns when the episode is over.  Must be
@@ -277,7 +291,7 @@ func (s *Sim) Run(root func()) Result {
 		println("simrt: episode end verdict", s.verdict.String(), "steps", s.steps, "live", s.live, "tasks", len(s.tasks))
 	}
 	S = nil
-	return Result{Verdict: s.verdict, Clause: s.failClause, Msg: s.failMsg, Steps: s.steps, Tape: s.tape, Tasks: s.tasks, Now: time.Duration(s.now)}
+	return Result{Verdict: s.verdict, Clause: s.failClause, Msg: s.failMsg, Steps: s.steps, Tape: s.tape, Tasks: s.tasks, Now: time.Duration(s.now), Switches: s.SwitchLog}
 }
 
 type clockWaiter struct{}
@@ -653,6 +667,15 @@ func (s *Sim) schedule(exiting bool) {
 	s.Finger = (s.Finger ^ uint64(next.LastSite+1) ^ uint64(hashName(next.Name))<<20 ^ uint64(me.LastSite+1)<<40) * 0x100000001b3
 	if me.Lib || next.Lib {
 		s.LibSwitches++
+	}
+	if s.opt.TraceSwitches {
+		ev := SwitchEv{Step: s.steps, From: me.ID, To: next.ID, FromSite: me.LastSite, ToSite: next.LastSite}
+		if me.state == tsBlocked || me.state == tsQuiesce {
+			ev.FromBlock = bkNames[me.bkind]
+		} else if me.state == tsExited {
+			ev.FromBlock = "exit"
+		}
+		s.SwitchLog = append(s.SwitchLog, ev)
 	}
 	next.waitSince = s.decisions
 	s.cur = next
